@@ -698,15 +698,21 @@ impl TypeSpace {
         let type_entry = match &mut type_entry.details {
             // The types that are already named are good to go.
             TypeEntryDetails::Enum(details) => {
-                details.default = default;
+                if default.is_some() {
+                    details.default = default;
+                }
                 type_entry
             }
             TypeEntryDetails::Struct(details) => {
-                details.default = default;
+                if default.is_some() {
+                    details.default = default;
+                }
                 type_entry
             }
             TypeEntryDetails::Newtype(details) => {
-                details.default = default;
+                if default.is_some() {
+                    details.default = default;
+                }
                 type_entry
             }
 
